@@ -29,7 +29,7 @@ def run(tier):
     if not d0.ok:
         raise Broken("design model MC_Paging fails: %s\n%s" % (d0.violated or d0.error, d0.trace_text[:2000]))
     drv = vlib.build_harness()
-    maxp = 5 if tier == "quick" else 12
+    maxp = 5 if tier == "quick" else 16
     gts = ["polygon", "multipolygon", "point", "linestring", "multipoint", "multilinestring", "geometrycollection"]
     cases = []
     k = 0
